@@ -419,6 +419,9 @@ static ShortInt DecodeAdr(tStrComp const* pArg, Word Mask, tAdrResult* pResult) 
     /* then it's absolute: */
 
     DispAcc = EvalStrIntExpression(pArg, (Mask & MModAbs20) ? UInt20 : UInt16, &OK);
+    if (!OK) {
+        return pResult->Type;
+    }
     if ((DispAcc <= 0xffff) && ((Mask & MModGen) != 0)) {
         pResult->Type    = ModGen;
         pResult->Mode    = 15;
